@@ -160,28 +160,32 @@ Proof.
   split; [vm_compute; reflexivity|]. split; [vm_compute; reflexivity|]. vm_compute; discriminate.
 Qed.
 
-(** ** Replay: a replayed header for a later round moves the voting round to that round BEFORE the header
-    and its commit proof are validated: here the header is rejected (result 2, validation error: its
-    hash flag is false and it carries no signatures at all) and the mirror nevertheless votes in round 5. *)
+(** ** Replay.  Before the repair of handleReplayedHeader (it jumped to the replayed round and only then
+    validated) this header - hash flag false, no signatures at all - was answered with a validation error
+    AND left the mirror voting in round 5; now it is answered with the same error and changes nothing. *)
 Definition bad_hdr : hdr := mk_hdr [9] false 1 [] empty_cproof wvs wvs.
 Definition bad_cp : cproof := mk_cproof 5 [7] [].
-Definition w_replay : kstate := run1 w0 (OpReplay bad_hdr bad_cp).
 
-Theorem replay_moves_round_without_certificate :
-  exists ih ivs s x cp s',
-    1 <= ih /\ vs_ok ivs = true /\ reachable_b ih ivs s /\ op_bounded (OpReplay x cp) /\
-    step s (OpReplay x cp) = Ok (s', 2) /\ cp_proofs cp = [] /\
-    v_h (k_vot s') = v_h (k_vot s) /\ v_r (k_vot s) = 0 /\ v_r (k_vot s') = 5.
-Proof.
-  exists 1, wvs, w0, bad_hdr, bad_cp, w_replay.
-  split; [lia|]. split; [reflexivity|]. split; [apply w0_reachable|].
-  split; [vm_compute; reflexivity|]. split; [vm_compute; reflexivity|]. vm_compute. repeat split.
-Qed.
+Example rejected_replay_example : step w0 (OpReplay bad_hdr bad_cp) = Ok (w0, 2).
+Proof. vm_compute. reflexivity. Qed.
 
-(** Replay of the two witnesses on the real Go code (harness/mirror built against repo HEAD, 900 generated
-    histories of 30 operations with -replay, every step's voting position read from the implementation's
-    observation): vote messages changed the round of an unchanged height by +1 (3915 steps) or +2
-    (307 steps), never more; every +2 step was a precommit message for the round after the voting round
-    with a nil entry (e.g. seed 1, case 3: one validator of power 3, mirror at height 1 round 0, precommit
-    for (1, 1) nil by that validator: voting round 2).  Replayed headers of the voting height answered
-    with a validation error moved the voting round in 25 steps (e.g. (4,1) -> (4,3), (3,0) -> (3,2)). *)
+(** an accepted one: header [9] of height 1 replayed with a round-2 commit proof signed by three of the
+    four validators: result 0, the mirror passes through round 2 and commits (voting height 2) *)
+Definition good_hdr : hdr := mk_hdr [9] true 1 [] empty_cproof wvs wvs.
+Definition good_cp : cproof := mk_cproof 2 [7] [([9], map (wsig KPrecommit 2 [9]) [0; 1; 2])].
+Definition w_replayed : kstate := run1 w0 (OpReplay good_hdr good_cp).
+
+Example accepted_replay_example :
+  op_bounded (OpReplay good_hdr good_cp) /\
+  step w0 (OpReplay good_hdr good_cp) = Ok (w_replayed, 0) /\
+  v_h (k_vot w_replayed) = 2 /\ v_h (k_com w_replayed) = 1 /\ v_r (k_com w_replayed) = 2.
+Proof. split; [vm_compute; reflexivity|]. split; [vm_compute; reflexivity|]. vm_compute. repeat split. Qed.
+
+(** Replay of the witnesses on the real Go code (harness/mirror built against a clean snapshot of the repo,
+    900 generated histories of 30 operations with -replay, every step's voting position read from the
+    implementation's observation): vote messages changed the round of an unchanged height by +1 (3915
+    steps) or +2 (307 steps), never more; every +2 step was a precommit message for the round after the
+    voting round with a nil entry (e.g. seed 1, case 3: one validator of power 3, mirror at height 1
+    round 0, precommit for (1, 1) nil by that validator: voting round 2).  On the code BEFORE the replay
+    repair, replayed headers answered with a validation error had moved the voting round in 25 steps
+    (e.g. (4,1) -> (4,3)); that is what the repair removed. *)
